@@ -229,6 +229,15 @@ func (m *LifeMon) OnEvent(c *eng.Ctx, ms eng.MState, ev *eng.Event) eng.MState {
 			r.iterExecs = 0
 		}
 	case "branch":
+		// any test against the node's budget counts as consulting it (the guard in front of a
+		// bottom-tested loop is not an exit test of that loop)
+		if !s.budgetTested && ev.Cond != nil {
+			ev.Cond.Walk(func(n *eng.Term) {
+				if n.K == eng.KEv && n.I == 0 && c.E.SiteClass[n.S] == "cb:GetMaxRetries" {
+					s.budgetTested = true
+				}
+			})
+		}
 		if ifi, ok := ev.Instr.(*ssa.If); ok {
 			fi := c.E.InfoOf(ev.Fn)
 			if l, _, ok := fi.IVExit(ifi); ok {
